@@ -653,14 +653,6 @@ func TestC11SourceHistories(t *testing.T) {
 				publish(mk(set1))
 				src = cert.ConsulSource{CertURL: "http://" + fc.Addr() + "/v1/kv/certs"}
 			} else if kind == "path" {
-				if (h/3)%3 == 1 {
-					// neighbours that are no certificate material: an editor's swap file, the hidden
-					// entries of a mounted secret volume
-					os.WriteFile(filepath.Join(certDir, ".a0-cert.pem.swp"), []byte("swap"), 0o600)
-					os.Mkdir(filepath.Join(certDir, "..2026_10_01"), 0o700)
-					os.Symlink("..2026_10_01", filepath.Join(certDir, "..data"))
-					hx.Class("history:path-source-with-hidden-neighbours")
-				}
 				writeDir(certDir, current.Load().(fileSet))
 				src = cert.PathSource{Path: srcPath, Refresh: time.Second}
 			} else {
@@ -781,6 +773,14 @@ func TestC11SourceHistories(t *testing.T) {
 				// the Consul servers were restored from a snapshot in the meantime: indexes restart low
 				fc.Rewind()
 				hx.Class("history:consul-index-goes-backwards-before-the-next-set")
+			}
+			if kind == "path" && !viaLink && (h/3)%3 != 2 {
+				// neighbours that are no certificate material appear next to the files: an editor's swap
+				// file, the hidden entries of a mounted secret volume
+				os.WriteFile(filepath.Join(certDir, ".a0-cert.pem.swp"), []byte("swap"), 0o600)
+				os.Mkdir(filepath.Join(certDir, "..2026_10_01"), 0o700)
+				os.Symlink("..2026_10_01", filepath.Join(certDir, "..data"))
+				hx.Class("history:path-source-with-hidden-neighbours")
 			}
 			if viaLink {
 				// the next release: written completely, then the link is re-pointed
